@@ -44,6 +44,15 @@ class Tr:
             return ' '.join(fmt(clean(x)) for x in self.motion.O), False
         if self.spelling == 'star':
             return tr_numbers(self.motion, True), True
+        if self.spelling == 'inline-dot':
+            # the same numbers the way they are often typed: no leading zero, explicit plus sign
+            def dot(t):
+                if t.startswith('0.'):
+                    return t[1:]
+                if t.startswith('-0.'):
+                    return '-' + t[2:]
+                return t if t.startswith('-') or t == '0' else '+' + t
+            return ' '.join(dot(t) for t in tr_numbers(self.motion).split()), False
         return tr_numbers(self.motion), False
 
 
